@@ -8,6 +8,7 @@ value); the decoder's stream position equals the encoding's length; k concatenat
 encodings decode to the k values leaving an empty tail.  Outside the domain any
 exception is required and no bytes that decode to something else may be produced.
 """
+import os
 from io import BytesIO
 
 from mon.core.merge import merge, need
@@ -151,6 +152,24 @@ def run_shard(cfg):
             try:
                 vals, pos = decode_all(blob, len(pending))
                 c.inc("concatenations")
+                if c.get("concatenations", 0) % 40 == 1:
+                    # the same concatenation read from a file: unbuffered (raw) and buffered.  Each decode takes exactly its own bytes,
+                    # whatever kind of stream it reads from
+                    import tempfile
+                    with tempfile.NamedTemporaryFile(dir=os.environ.get("VERIF_SCRATCH", "/var/tmp"), delete=True) as tf:
+                        tf.write(blob + b"TRAILER")
+                        tf.flush()
+                        for buffering in (0, -1):
+                            with open(tf.name, "rb", buffering=buffering) as fh:
+                                try:
+                                    vals_f = [S.Serializable.loadb(fh) for _ in range(len(pending))]
+                                    rest = fh.read()
+                                    c.inc("concatenations_from_files")
+                                    if [G.canon(x) for x in vals_f] != [w_ for _, w_ in pending] or rest != b"TRAILER":
+                                        viol("concatenation-differs", "5 concatenated encodings read from a %s file: values %s, %d bytes left instead of the 7-byte trailer" % (
+                                            "raw (unbuffered)" if buffering == 0 else "buffered", "equal" if [G.canon(x) for x in vals_f] == [w_ for _, w_ in pending] else "differ", len(rest)), {})
+                                except Exception as e_:
+                                    viol("concatenation-raised", "decoding 5 concatenated encodings from a %s file raised %r" % ("raw" if buffering == 0 else "buffered", e_), {})
                 if pos != len(blob) or [G.canon(x) for x in vals] != [w for _, w in pending]:
                     viol("concatenation-differs", "5 concatenated encodings do not decode to the 5 values (stopped at %d of %d)" % (pos, len(blob)), {})
             except Exception as e:
@@ -249,7 +268,7 @@ def finish(tier, seed, results):
     inconclusive = []
     need(m["counters"], ["values", "encoded", "roundtrips_equal", "concatenations", "dumpb_loadb", "out_of_domain_refused", "limit_values_roundtrip",
                          "refused_inputs_interleaved", "decodes_after_refused_input_equal", "fields_none_with_non_none_default",
-                         "boundary_strings_roundtrip", "decoded_values_mutated_in_place", "dumpz_and_persisted_roundtrips", "decodes_with_foreign_kwargs", "limit_settings_roundtrip"], inconclusive)
+                         "boundary_strings_roundtrip", "decoded_values_mutated_in_place", "dumpz_and_persisted_roundtrips", "decodes_with_foreign_kwargs", "limit_settings_roundtrip", "concatenations_from_files"], inconclusive)
     cov = {
         "evaluations": m["evaluations"],
         "distinct_nontrivial": m["distinct_nontrivial"],
